@@ -125,6 +125,7 @@ func (vc *VC) exec(b *ssa.BasicBlock, in ssa.Instruction, st *State, reach strin
 		vc.assume("true", sNot(sEq(f, "nilFn"))) // a closure value is never nil
 		vc.makeClosureHook(x, st, reach)          // effects.go
 		vc.closureDefHook(x, f, st, reach)        // closuredef.go (w-c01)
+		vc.captureHook(x, f, st, reach)           // captproj.go (x-c17)
 	case *ssa.MakeMap:
 		vc.vals[x] = vc.makeMap(x, st)
 	case *ssa.MapUpdate:
@@ -136,6 +137,7 @@ func (vc *VC) exec(b *ssa.BasicBlock, in ssa.Instruction, st *State, reach strin
 	case *ssa.Next:
 		vc.vals[x] = vc.next(x, st, reach)
 	case *ssa.RunDefers:
+		vc.runDefers(x, st, reach) // captproj.go (x-c17): contracts of deferred literals
 		return
 	case *ssa.Defer:
 		vc.deferCall(x, st, reach)
